@@ -367,6 +367,8 @@ Pointset_Powerset<PSET>::fold_space_dimensions(const Variables_Set& vars,
            s_end = x.sequence.end(); si != s_end; ++si) {
       si->pointset().fold_space_dimensions(vars, dest);
     }
+    // Folding may make a disjunct entail another one.
+    x.reduced = false;
   }
   x.space_dim -= num_folded;
   PPL_ASSERT_HEAVY(x.OK());
@@ -695,6 +697,8 @@ Pointset_Powerset<PSET>::topological_closure_assign() {
          s_end = x.sequence.end(); si != s_end; ++si) {
     si->pointset().topological_closure_assign();
   }
+  // The closure of a disjunct may entail another disjunct.
+  x.reduced = false;
   PPL_ASSERT_HEAVY(x.OK());
 }
 
